@@ -5,3 +5,4 @@ Redirect "C12/Export_c12_double_close_harmless" Print Assumptions C12X.c12_doubl
 Redirect "C12/Export_c12_group_terminates" Print Assumptions C12X.c12_group_terminates.
 Redirect "C12/Export_c12_no_send_on_closed_group_partial" Print Assumptions C12X.c12_no_send_on_closed_group_partial.
 Redirect "C12/Export_c12_group_watcher" Print Assumptions C12X.c12_group_watcher.
+Redirect "C12/Export_c12_group_release_has_heartbeat" Print Assumptions C12X.c12_group_release_has_heartbeat.
